@@ -80,6 +80,8 @@ type Proc struct {
 	// instantiation work, and made some obligations depend on the solver seed.
 	LemmaLine map[string]string
 	LemmaFor  map[string]map[string]bool
+	SliceOut  map[string][]string // property -> symbols withheld from the obligations of exactly that property
+	FactFor   map[string]map[string]bool // assert label -> obligation labels that may use its fact
 }
 
 func (p *Proc) NewBlock(label string) *Block {
@@ -218,6 +220,23 @@ func (o *Obligation) Query(models bool) string {
 			case 'a':
 				// a guarded fact matters only if its block lies on a path to the obligation
 				if lb := o.gen.lineBlk[i]; lb == -1 || lb == o.ctx || anc[lb] {
+					if ll := o.gen.lineLabel[i]; ll != "" {
+						if users := o.gen.p.FactFor[ll]; users != nil && !users[clauseLabel(o.Name)] {
+							continue
+						}
+					}
+					if len(o.Props) == 1 {
+						withheld := false
+						for _, sym := range o.gen.p.SliceOut[o.Props[0]] {
+							if strings.Contains(lines[i], sym) {
+								withheld = true
+								break
+							}
+						}
+						if withheld {
+							continue
+						}
+					}
 					pendingAsserts = append(pendingAsserts, i)
 				}
 			}
@@ -272,6 +291,9 @@ func (o *Obligation) Query(models bool) string {
 		if o.ExpectSat && strings.HasPrefix(l, "(assert") && (strings.Contains(l, "(forall ") || strings.Contains(l, "(exists ")) {
 			continue // canaries: quantified facts are dropped so that a solver can answer sat
 		}
+		if o.ExpectSat && o.gen != nil && i < len(o.gen.fromAssert) && o.gen.fromAssert[i] && strings.HasPrefix(l, "(assert") {
+			continue // canaries: facts that are themselves obligations (asserts of the code and of the contract) add nothing
+		}
 		sb.WriteString(l)
 		sb.WriteByte('\n')
 	}
@@ -317,6 +339,12 @@ type vcgen struct {
 	counter map[string]int
 	oblSeq  map[string]int
 	seenElem map[string]bool
+	byteSums map[string][]Expr // Var name -> its little-endian bytes (resolved select terms)
+	hasIte   map[string]bool   // macros whose expansion contains an if-then-else
+	fromAssert   []bool // per script line: emitted as the consequence of an assert command
+	lineLabel    []string // per script line: label of the assert clause whose fact it is ("" otherwise)
+	curFactLabel string
+	inAssertFact bool
 	sinfo    *scriptInfo
 	mu       sync.Mutex
 	lineBlk  []int              // emitting block of each script line (-1: global)
@@ -328,6 +356,8 @@ type vcgen struct {
 func (g *vcgen) emit(l string) {
 	g.script = append(g.script, l)
 	g.lineBlk = append(g.lineBlk, g.curBlk)
+	g.fromAssert = append(g.fromAssert, g.inAssertFact)
+	g.lineLabel = append(g.lineLabel, g.curFactLabel)
 }
 
 func (g *vcgen) fresh(base string, s Sort) *Var {
@@ -368,9 +398,22 @@ func (g *vcgen) define(base string, e Expr, st vcState) Expr {
 		return v
 	}
 	g.elemFacts(e, st)
+	var bytes []Expr
+	if e.Sort() == SInt {
+		e, bytes = g.byteSumSimplify(e, st)
+	} else if e.Sort() == SBool {
+		g.byteSumEquality(e, st)
+	}
 	v := g.fresh(base, e.Sort())
+	if bytes != nil {
+		g.byteSums[v.Name] = bytes
+	}
+	tainted := g.iteTainted(e, st)
+	if tainted {
+		g.hasIte[v.Name] = true
+	}
 	if a, ok := e.(*App); ok && a.Op == "store" {
-		if in, ok := a.Args[0].(*App); ok && in.Op == "store" {
+		if in, ok := a.Args[0].(*App); (ok && in.Op == "store") || tainted {
 			// a chain of stores: a name of its own (not a macro), so that quantifier patterns over
 			// the new memory mention a constant and not the chain
 			g.emit(fmt.Sprintf("(declare-const %s %s)", v.Name, v.S))
@@ -379,7 +422,195 @@ func (g *vcgen) define(base string, e Expr, st vcState) Expr {
 		}
 	}
 	g.emit(fmt.Sprintf("(define-fun %s () %s %s)", v.Name, v.S, PrintIn(e, st)))
+	if a, ok := e.(*App); ok && a.Op == "bit.xor" && len(a.Args) == 2 {
+		g.byteSumXor(v, a, st)
+	}
 	return v
+}
+
+// Little-endian words. A value Σ 256^i·b_i over elements b_i of the byte memory (each in 0..255,
+// the memory model's invariant, asserted for every element read) is remembered with its bytes;
+// `x mod 256^k` and `x div 256^k` of such a value are then written as the sum of the bytes they
+// keep -- what uint32(w), w>>8 ... are -- instead of leaving the solver to rediscover it through
+// div/mod of a 64-bit sum.
+func byteSumTerms(e Expr) []Expr {
+	var terms []Expr
+	var flat func(x Expr) bool
+	flat = func(x Expr) bool {
+		if a, ok := x.(*App); ok && a.Op == "+" {
+			for _, y := range a.Args {
+				if !flat(y) {
+					return false
+				}
+			}
+			return true
+		}
+		terms = append(terms, x)
+		return true
+	}
+	flat(e)
+	if len(terms) < 2 || len(terms) > 8 {
+		return nil
+	}
+	out := make([]Expr, len(terms))
+	for _, tm := range terms {
+		k := 0
+		b := tm
+		if a, ok := tm.(*App); ok && a.Op == "*" && len(a.Args) == 2 {
+			c, ok := litInt(a.Args[0])
+			b = a.Args[1]
+			if !ok {
+				c, ok = litInt(a.Args[1])
+				b = a.Args[0]
+			}
+			if !ok || c.Sign() <= 0 || c.BitLen()%8 != 1 || c.Cmp(pow2(c.BitLen()-1)) != 0 {
+				return nil
+			}
+			k = (c.BitLen() - 1) / 8
+		}
+		sel, ok := b.(*App)
+		if !ok || sel.Op != "select" || k >= len(out) || out[k] != nil {
+			return nil
+		}
+		if m, ok := sel.Args[0].(*Var); !ok || !strings.HasPrefix(m.Name, "M_uint8") {
+			return nil
+		}
+		out[k] = b
+	}
+	return out
+}
+
+func sumOfBytes(bs []Expr) Expr {
+	if len(bs) == 0 {
+		return IntLit(0)
+	}
+	e := bs[0]
+	for i := 1; i < len(bs); i++ {
+		e = IAdd(e, IMul(BigLit(pow2(8*i)), bs[i]))
+	}
+	return e
+}
+
+func (g *vcgen) byteSumSimplify(e Expr, st vcState) (Expr, []Expr) {
+	res := RenameCells(e, func(c *Cell) Expr {
+		if v, ok := st[c.Name]; ok {
+			return v
+		}
+		return c
+	})
+	bytesOf := func(x Expr) []Expr {
+		if v, ok := x.(*Var); ok {
+			return g.byteSums[v.Name]
+		}
+		return byteSumTerms(x)
+	}
+	if a, ok := res.(*App); ok && (a.Op == "mod" || a.Op == "div") && len(a.Args) == 2 {
+		if c, ok := litInt(a.Args[1]); ok && c.Sign() > 0 && c.BitLen()%8 == 1 && c.Cmp(pow2(c.BitLen()-1)) == 0 {
+			k := (c.BitLen() - 1) / 8
+			if bs := bytesOf(a.Args[0]); bs != nil {
+				var keep []Expr
+				if a.Op == "mod" {
+					if k < len(bs) {
+						keep = bs[:k]
+					} else {
+						keep = bs
+					}
+				} else if k < len(bs) {
+					keep = bs[k:]
+				}
+				if len(keep) >= 2 {
+					return sumOfBytes(keep), keep
+				}
+				return sumOfBytes(keep), nil
+			}
+		}
+		return e, nil
+	}
+	if bs := byteSumTerms(res); bs != nil {
+		return e, bs
+	}
+	return e, nil
+}
+
+// iteTainted: e, with the macros it mentions expanded, contains an if-then-else. z3 refuses such
+// a term inside a quantifier pattern, so a memory defined by it must not be a macro.
+func (g *vcgen) iteTainted(e Expr, st vcState) bool {
+	switch x := e.(type) {
+	case *Cell:
+		if v, ok := st[x.Name]; ok {
+			return g.iteTainted(v, nil)
+		}
+	case *Var:
+		return g.hasIte[x.Name]
+	case *App:
+		if x.Op == "ite" {
+			return true
+		}
+		for _, a := range x.Args {
+			if g.iteTainted(a, st) {
+				return true
+			}
+		}
+	}
+	return false
+}
+
+// byteSumEquality: two little-endian words of the same width are equal iff their bytes are
+// (each byte is in 0..255); stated when such a comparison is defined.
+func (g *vcgen) byteSumEquality(e Expr, st vcState) {
+	a, ok := e.(*App)
+	if ok && a.Op == "not" && len(a.Args) == 1 {
+		a, ok = a.Args[0].(*App)
+	}
+	if !ok || a.Op != "=" || len(a.Args) != 2 {
+		return
+	}
+	side := func(x Expr) (Expr, []Expr) {
+		if c, ok := x.(*Cell); ok {
+			x = st[c.Name]
+		}
+		if v, ok := x.(*Var); ok {
+			return v, g.byteSums[v.Name]
+		}
+		return nil, nil
+	}
+	x, bx := side(a.Args[0])
+	y, by := side(a.Args[1])
+	if bx == nil || by == nil || len(bx) != len(by) {
+		return
+	}
+	var eqs []Expr
+	for i := range bx {
+		eqs = append(eqs, Eq(bx[i], by[i]))
+	}
+	g.emit("(assert (= " + Print(Eq(x, y)) + " " + Print(And(eqs...)) + "))")
+}
+
+// byteSumXor: x = a ^ b for two little-endian words of the same width. x is zero iff all bytes
+// agree, and the low 8k bits of x are zero only if the first k bytes agree (what
+// TrailingZeros64(x)>>3 is used for).
+func (g *vcgen) byteSumXor(x *Var, a *App, st vcState) {
+	side := func(e Expr) []Expr {
+		if c, ok := e.(*Cell); ok {
+			e = st[c.Name]
+		}
+		if v, ok := e.(*Var); ok {
+			return g.byteSums[v.Name]
+		}
+		return nil
+	}
+	ba, bb := side(a.Args[0]), side(a.Args[1])
+	if ba == nil || len(ba) != len(bb) {
+		return
+	}
+	var eqs []Expr
+	for i := range ba {
+		eqs = append(eqs, Eq(ba[i], bb[i]))
+	}
+	g.emit("(assert (= (= " + x.Name + " 0) " + Print(And(eqs...)) + "))")
+	for k := 1; k < len(ba); k++ {
+		g.emit(fmt.Sprintf("(assert (=> (= (mod %s %s) 0) %s))", x.Name, pow2(8*k).String(), Print(And(eqs[:k]...))))
+	}
 }
 
 // rangeFact asserts the type invariant of a freshly declared incarnation.
@@ -487,7 +718,13 @@ func (g *vcgen) obligation(guard Expr, c Cmd, st vcState) {
 		prefix: len(g.script), goal: goal, script: &g.script, Meta: c.Meta, Logic: g.p.Logic, gen: g, ctx: g.ctxBlk}
 	g.obls = append(g.obls, o)
 	if !c.ExpectSat {
+		// the asserted condition holds from here on (it is an obligation of its own); canaries do not
+		// need these facts: a proved fact cannot make a path vacuous
+		g.inAssertFact = true
+		g.curFactLabel = clauseLabel(name)
 		g.fact(guard, c.E, st)
+		g.inAssertFact = false
+		g.curFactLabel = ""
 	}
 }
 
@@ -503,7 +740,7 @@ func GenVCs(p *Proc, prelude []string) (obls []*Obligation, err error) {
 			panic(r)
 		}
 	}()
-	g := &vcgen{p: p, counter: map[string]int{}, oblSeq: map[string]int{}, seenElem: map[string]bool{}, curBlk: -1, anc: map[int]map[int]bool{}, ctxBlk: -1}
+	g := &vcgen{p: p, counter: map[string]int{}, oblSeq: map[string]int{}, seenElem: map[string]bool{}, byteSums: map[string][]Expr{}, hasIte: map[string]bool{}, curBlk: -1, anc: map[int]map[int]bool{}, ctxBlk: -1}
 	for _, l := range prelude {
 		g.emit(l)
 	}
@@ -725,6 +962,21 @@ func GenVCs(p *Proc, prelude []string) (obls []*Obligation, err error) {
 				}
 				g.ctxBlk, g.curBlk = b.ID, b.ID
 			} else {
+				// entry(e) in the invariants: the cells of e as they are on arrival from outside the loop
+				epre := fmt.Sprintf("entry$%d$", ls.Ordinal)
+				ecells := map[string]Sort{}
+				for _, inv := range ls.Invs {
+					CellsOf(inv.E, ecells)
+				}
+				for name := range ecells {
+					if strings.HasPrefix(name, epre) {
+						if v, ok := st[strings.TrimPrefix(name, epre)]; ok {
+							st[name] = v
+						} else {
+							panic("entry(): " + strings.TrimPrefix(name, epre) + " is not live at the head of loop " + itoa(ls.Ordinal) + " in " + g.p.Name)
+						}
+					}
+				}
 				for _, inv := range ls.Invs {
 					g.obligation(reach, Cmd{Kind: CAssert, E: inv.E, Name: "inv-establish/" + lname + "/" + inv.Label, Props: inv.Props}, st)
 				}
@@ -757,7 +1009,9 @@ func GenVCs(p *Proc, prelude []string) (obls []*Obligation, err error) {
 				g.rangeFact(c, nv)
 			}
 			for _, inv := range ls.Invs {
+				g.curFactLabel = inv.Label // `scope` may confine an invariant's fact to the obligations that need it
 				g.fact(reach, inv.E, st)
+				g.curFactLabel = ""
 			}
 			if ls.Decreases != nil {
 				decAtHead[b.ID] = g.define("dec_"+lname, ls.Decreases, st)
